@@ -2,6 +2,7 @@ package c15
 
 import (
 	"fmt"
+	"math"
 	"runtime"
 	"strings"
 	"sync"
@@ -66,10 +67,10 @@ func genTwoSeq(rng *mon.RNG) twoSeqPlan {
 	mds := make([]*model, p.ncache)
 	now := time.Duration(0)
 	for i := range mds {
-		p.maxTTL = append(p.maxTTL, int64(rng.PickInt(0, 0, 2, 3, 5)))
+		p.maxTTL = append(p.maxTTL, int64(rng.PickInt(0, 0, 2, 3, 5, 2, 3, -1, math.MinInt64)))
 		iv := farInterval
 		if rng.Chance(1, 3) {
-			iv = []time.Duration{grid, sec, 2 * sec}[rng.Intn(3)]
+			iv = []time.Duration{grid, sec, 2 * sec, 0}[rng.Intn(4)]
 		}
 		p.interval = append(p.interval, iv)
 		mds[i] = newModel(p.maxTTL[i])
@@ -139,7 +140,8 @@ func runTwoSeq(t *testing.T, idx int, pl twoSeqPlan) {
 		cs := make([]*ttlcache.Cache[string], pl.ncache)
 		mds := make([]*model, pl.ncache)
 		for i := range cs {
-			cs[i] = ttlcache.NewCache[string](ttlcache.CacheOptions{CleanupInterval: pl.interval[i], MaxTTL: pl.maxTTL[i]})
+			cs[i] = ttlcache.NewCache[string](ttlcache.CacheOptions{CleanupInterval: pl.interval[i], MaxTTL: pl.maxTTL[i], InitialSize: []int32{0, -1, 1}[i]})
+			countOptionShapes(pl.maxTTL[i], pl.interval[i], []int32{0, -1, 1}[i])
 			mds[i] = newModel(pl.maxTTL[i])
 		}
 		synctest.Wait()
@@ -180,6 +182,9 @@ func runTwoSeq(t *testing.T, idx int, pl twoSeqPlan) {
 				violation("twocache/seq/"+site+"/miss-live-entry/after-"+last+"-on-"+where, fmt.Sprintf("cache %d: Get(%q) at %s missed; its reference holds %q expiring at %s; last operation: %s on cache %d", c, key, fmtD(now), e.val, fmtD(e.exp), last, lastC))
 			case ok:
 				rec.Count("twoseq.get.hit", 1)
+				if pl.maxTTL[c] < 0 {
+					rec.Count("options.maxttl_negative.twocache_hits", 1)
+				}
 			default:
 				rec.Count("twoseq.get.miss", 1)
 			}
@@ -245,6 +250,7 @@ func runTwoSeq(t *testing.T, idx int, pl twoSeqPlan) {
 					break
 				}
 				for c, iv := range pl.interval {
+					iv = effInterval(iv)
 					if int64(now/iv) > int64(from/iv) {
 						last, lastC = "tick", c
 						rec.Count("twoseq.ticks", 1)
@@ -285,11 +291,14 @@ type twoConcPlan struct {
 	bN        int
 	third     bool // a third cache with the same names
 	yield     int  // harness goroutines call Gosched with chance 1/yield (0: never)
+	aMaxTTL   int64
+	aInit     int32
+	aInterval time.Duration
 }
 
 func (p twoConcPlan) String() string {
-	return fmt.Sprintf("twoconc procs=%d rounds=%d A.expired=%d A.live=%d readers=%dx%d A.cleaners=%d B.workers=%dx%d third=%v yield=%d",
-		p.procs, p.rounds, p.nexp, p.nlive, p.readers, p.readN, p.acleaners, p.bworkers, p.bN, p.third, p.yield)
+	return fmt.Sprintf("twoconc procs=%d rounds=%d A.expired=%d A.live=%d readers=%dx%d A.cleaners=%d B.workers=%dx%d third=%v yield=%d A.maxTTL=%d A.init=%d A.interval=%v",
+		p.procs, p.rounds, p.nexp, p.nlive, p.readers, p.readN, p.acleaners, p.bworkers, p.bN, p.third, p.yield, p.aMaxTTL, p.aInit, p.aInterval)
 }
 
 func genTwoConc(rng *mon.RNG) twoConcPlan {
@@ -305,6 +314,9 @@ func genTwoConc(rng *mon.RNG) twoConcPlan {
 		bN:        rng.Range(4, 30),
 		third:     rng.Chance(1, 3),
 		yield:     rng.PickInt(0, 2, 4, 8),
+		aMaxTTL:   int64(rng.PickInt(0, 0, 0, -1, -30, math.MinInt64)),
+		aInit:     int32(rng.PickInt(0, 0, 0, 1, -1, math.MinInt32, 1<<15)),
+		aInterval: time.Duration(rng.PickInt(int(farInterval), int(farInterval), 0, -1)), // <= 0: default 150 s, beyond these rounds
 	}
 }
 
@@ -337,7 +349,8 @@ func runTwoConc(t *testing.T, idx int, pl twoConcPlan) {
 	var liveReads, cleanups, bscans atomic.Int64
 	res := mon.Bubble(t, func() {
 		start := time.Now()
-		a := ttlcache.NewCache[string](ttlcache.CacheOptions{CleanupInterval: farInterval})
+		a := ttlcache.NewCache[string](ttlcache.CacheOptions{CleanupInterval: pl.aInterval, MaxTTL: pl.aMaxTTL, InitialSize: pl.aInit})
+		countOptionShapes(pl.aMaxTTL, pl.aInterval, pl.aInit)
 		others := []*ttlcache.Cache[string]{ttlcache.NewCache[string](ttlcache.CacheOptions{CleanupInterval: farInterval})}
 		if pl.third {
 			others = append(others, ttlcache.NewCache[string](ttlcache.CacheOptions{CleanupInterval: farInterval, MaxTTL: 50}))
@@ -410,6 +423,9 @@ func runTwoConc(t *testing.T, idx int, pl twoConcPlan) {
 								return
 							}
 							liveReads.Add(1)
+							if pl.aMaxTTL < 0 {
+								rec.Count("options.maxttl_negative.twocache_hits", 1)
+							}
 							yield()
 						}
 					case g < pl.readers+pl.acleaners:
